@@ -233,6 +233,25 @@ fn limits_case(cx: &mut Cx, case: u64) {
     }
 }
 
+/// the same variable names as the base context, other values (and one more variable)
+fn second_context() -> Context {
+    let mut ctx2 = Context::new();
+    ctx2.insert("s1", "Other <text> & more");
+    ctx2.insert("s2", "deux");
+    ctx2.insert("n1", &8);
+    ctx2.insert("n2", &5);
+    ctx2.insert("f1", &0.25);
+    ctx2.insert("b1", &false);
+    ctx2.insert("b0", &true);
+    ctx2.insert("xs", &vec!["q<", "r"]);
+    ctx2.insert("ns", &vec![9, 8]);
+    ctx2.insert("empty", &vec![0]);
+    ctx2.insert("a", "B<arg>");
+    ctx2.insert("n", &2);
+    ctx2.insert("extra", "only in the second context");
+    ctx2
+}
+
 pub fn run(cx: &mut Cx) {
     let total = cx.total(1000, 100_000);
     let vars = base_context();
@@ -408,20 +427,7 @@ pub fn run(cx: &mut Cx) {
         // with the first one, give what an engine that has never rendered anything gives; and the first context again gives
         // the reference
         if case % 2 == 1 {
-            let mut ctx2 = Context::new();
-            ctx2.insert("s1", "Other <text> & more");
-            ctx2.insert("s2", "deux");
-            ctx2.insert("n1", &8);
-            ctx2.insert("n2", &5);
-            ctx2.insert("f1", &0.25);
-            ctx2.insert("b1", &false);
-            ctx2.insert("b0", &true);
-            ctx2.insert("xs", &vec!["q<", "r"]);
-            ctx2.insert("ns", &vec![9, 8]);
-            ctx2.insert("empty", &vec![0]);
-            ctx2.insert("a", "B<arg>");
-            ctx2.insert("n", &2);
-            ctx2.insert("extra", "only in the second context");
+            let ctx2 = second_context();
             if let Ok(Ok(fresh)) = guard(|| build_engine(&program)) {
                 for (k, job) in jobs.iter().enumerate() {
                     let r = guard(|| {
@@ -467,8 +473,12 @@ pub fn run(cx: &mut Cx) {
         if case % 4 == 0 {
             let threads = [2usize, 4, 8, 16][(case / 4 % 4) as usize];
             let Ok(Ok(fresh)) = guard(|| build_engine(&program)) else { continue };
+            // half of the renders use the second context: its sequential reference comes from another new engine
+            let ctx2 = second_context();
+            let Ok(Ok(fresh2)) = guard(|| build_engine(&program)) else { continue };
+            let Ok(reference2) = guard(|| jobs.iter().map(|j| run_job(&fresh2, &ctx2, j).map(|s| s.into_bytes()).map_err(|e| e.to_string())).collect::<Vec<_>>()) else { continue };
             let shared = Arc::new(fresh);
-            let sctx = Arc::new(ctx.clone());
+            let sctx = Arc::new([ctx.clone(), ctx2]);
             let sjobs = Arc::new(jobs.clone());
             let barrier = Arc::new(Barrier::new(threads));
             let rounds = 3;
@@ -481,11 +491,12 @@ pub fn run(cx: &mut Cx) {
                         let mut r = Rng::new(seed);
                         b.wait();
                         let mut outs = Vec::new();
-                        for _ in 0..rounds {
+                        for round in 0..rounds {
                             r.shuffle(&mut order);
                             for k in &order {
-                                let o = std::panic::catch_unwind(std::panic::AssertUnwindSafe(|| run_job(&t, &c, &j[*k]).map(|s| s.into_bytes()).map_err(|e| e.to_string())));
-                                outs.push((*k, o.unwrap_or_else(|_| Err("panic".into()))));
+                                let which = (ti + round + *k) % 2;
+                                let o = std::panic::catch_unwind(std::panic::AssertUnwindSafe(|| run_job(&t, &c[which], &j[*k]).map(|s| s.into_bytes()).map_err(|e| e.to_string())));
+                                outs.push((*k, which, o.unwrap_or_else(|_| Err("panic".into()))));
                             }
                         }
                         outs
@@ -497,9 +508,10 @@ pub fn run(cx: &mut Cx) {
             for h in handles {
                 match h.join() {
                     Ok(outs) => {
-                        for (k, o) in outs {
+                        for (k, which, o) in outs {
                             n += 1;
-                            let same = match (&o, &reference[k]) {
+                            let refs = if which == 0 { &reference } else { &reference2 };
+                            let same = match (&o, &refs[k]) {
                                 (Ok(a), Ok(b)) => a == b,
                                 (Err(_), Err(_)) => true,
                                 _ => false,
@@ -507,7 +519,7 @@ pub fn run(cx: &mut Cx) {
                             if !same {
                                 mismatches += 1;
                                 if mismatches <= 2 {
-                                    cx.violation("C18/concurrent-render-differs-from-sequential", format!("job {:?} on {threads} threads gave {:?}, sequentially {:?}", jobs[k], o.as_ref().map(|b| clip(&String::from_utf8_lossy(b), 200)), reference[k].as_ref().map(|b| clip(&String::from_utf8_lossy(b), 200))), json!({"templates": program.templates, "threads": threads}));
+                                    cx.violation("C18/concurrent-render-differs-from-sequential", format!("job {:?} on {threads} threads (two contexts in turn, this render with the {}) gave {:?}, sequentially on a new engine {:?}", jobs[k], if which == 0 { "first" } else { "second" }, o.as_ref().map(|b| clip(&String::from_utf8_lossy(b), 200)), refs[k].as_ref().map(|b| clip(&String::from_utf8_lossy(b), 200))), json!({"templates": program.templates, "threads": threads}));
                                 }
                             }
                         }
